@@ -34,6 +34,61 @@ CLAIMS = {
   "exactly at the assert / zero-denominator guards and never errs. Tied to the code by running both on all (n<=10..14, spacing<=8) and "
   "random memories, with the naive recurrence/product as Python oracle.",
   "", "Lean 4 machine-checked proof over a hand model + correspondence check", "7/C15"),
+
+ 'C04': ("proof",
+  "Lean theorems (Props/C04.lean) for an ARBITRARY hash instance, friendly-layer count, every height <= 250 and every non-empty strictly "
+  "increasing in-range query list: decommitment of the committed tree's leaves with its authentication path (spec: layer-by-layer "
+  "sibling list, not the model) is accepted with any trailing extra nodes; any strict prefix of the path is rejected; acceptance against "
+  "the committed root implies every queried value and every consumed sibling is the tree's, OR an explicit hash collision is produced "
+  "(collision-extraction, no injectivity assumed); corollaries for wrong value / sibling / root / index; the 64-byte preimage is "
+  "injective; the recursion's fuel |queue|+|auths|+1 is never exhausted; no panic for any input. The model is tied to the code by "
+  "running vector_commitment_decommit and the model on trees built by the executable Lean spec builder (all friendly boundaries, five "
+  "query shapes, every single-site corruption) under 2 (quick) / all 4 (thorough) hash builds.",
+  "Not modelled: stack depth of the recursive Rust function (bounded by |queue|+|auths|, proof-size linear).",
+  "Lean 4 machine-checked proof (collision-extraction) over a hand model + correspondence check", "7/C04"),
+ 'C05': ("proof",
+  "Lean theorems (Props/C05.lean): table decommitment of committed rows is accepted (Montgomery form, single-column rows unhashed, row "
+  "hash by the friendly rule at depth height+1); values.length != columns x queries is rejected for all inputs; Montgomery multiplication "
+  "and the row preimage are injective; acceptance against a committed table's root implies every cell of every queried row is the "
+  "committed cell or an explicit collision of the node hash / poseidon_hash_many / masked hash is produced; no panic. Tied to the code "
+  "on tables from the Lean spec builder with cell, swap, length and witness corruptions under 2/4 hash builds.",
+  "", "Lean 4 machine-checked proof (collision-extraction) over a hand model + correspondence check", "7/C05"),
+ 'C08': ("proof",
+  "Lean theorems (Props/C08.lean) for an arbitrary hash instance: challenges of a history are a prefix of those of any extension "
+  "(unaffected by later messages); absorb resets the counter, k squeezes use pairwise distinct (digest, counter+j) inputs for k <= P; two "
+  "same-kind histories differing in a message have different digests afterwards or exhibit a poseidon_hash_many collision, hence every later "
+  "challenge differs or a collision is exhibited; and commit_script: whenever stark_commit (any layout ops) succeeds, its transcript IS "
+  "the fixed script [trace root, n interaction squeezes, interaction root, alpha, composition root, OODS point, oods values, oods alpha, "
+  "(layer root, eval point)*, last layer, nonce] — so the OODS point precedes the oods values, the DEEP coefficients follow them, and "
+  "queries are drawn after the nonce. Tied to the code by random absorb/squeeze interleavings through the real Transcript vs the model "
+  "with a relational oracle (prefix, later-message independence, distinct consecutive challenges, changed message changes all later ones).",
+  "Fiat-Shamir soundness itself (random-oracle model) is not formalised. Recorded Stone transcripts are compared under C03/C19.",
+  "Lean 4 machine-checked proof (collision-extraction) over a hand model + correspondence check", "7/C08"),
+ 'C09': ("proof",
+  "Lean theorems (Props/C09.lean) for any 32-byte-output hash: verify_pow(digest,n,nonce) = Ok <-> the 32-byte H(H(0x0123456789abcded || "
+  "digest || n) || nonce_be64) has >= n leading zero bits, for every n <= 128 (never panics there, panics above 128); exact byte layout; "
+  "Config::validate = Ok <-> 20 <= n <= 50; commit absorbs the nonce iff the check passed (C08.nonce_absorbed_last / queries_after_nonce give "
+  "the ordering). Tied to the code by random and MINED (digest, nonce) pairs under both PoW hashes, against the model (Lean Keccak/Blake2s) and "
+  "an independent Python oracle (own Keccak-256, hashlib Blake2s).",
+  "", "Lean 4 machine-checked proof over a hand model + correspondence check", "7/C09"),
+ 'C11': ("proof",
+  "Lean theorem validate_iff (Props/C11.lean): for ALL configurations, security levels and layout column counts in 1..128, "
+  "StarkConfig::validate's model returns Ok <-> ConfigOK, the property sentence transcribed over natural numbers (no modular reading): "
+  "the proof shows every accepted field equality is an equality of naturals; plus validate never panics, and accepted => FRI degree bound "
+  "= trace length, blow-up >= 1, t <= 71. Bounds in the model are constants re-translated from the Rust on every run. Tied to the code by "
+  "running StarkConfig::validate on the fixture and synthesised valid configs with every single-field perturbation, edge values in every "
+  "numeric field, vector truncations and consistent re-declarations, against the model and an independent Python transcription.",
+  "The 1..128 column clause: all seven layouts' column counts are within it.",
+  "Lean 4 machine-checked proof over a hand model + correspondence check + translated constants", "7/C11"),
+ 'C13': ("proof",
+  "Lean theorems (Props/C13.lean) for arbitrary Pedersen/Poseidon instances: for two public inputs of the same shape (segment count, "
+  "dynamic-parameter presence/count), equal hashed lists force equality of every listed field, of the main-page length and Pedersen chain, "
+  "and (stone6) of the friendly-layer count; a main-page difference with equal chains yields an explicit Pedersen collision; equal seeds for "
+  "inputs differing in a bound field yield an explicit Pedersen or poseidon_hash_many collision; prod is not bound; the shape proviso is "
+  "necessary (counter-lemma). Tied to the code by get_hash vs model (Lean Pedersen + Poseidon) on random inputs and every single-field "
+  "change / insertion / deletion / transposition, both Stone builds, with a relational oracle.",
+  "Dynamic-parameter field ORDER is the translator's (Generated/DynamicParams) and is exercised under C16/C19.",
+  "Lean 4 machine-checked proof (collision-extraction) over a hand model + correspondence check", "7/C13"),
 }
 
 ORDER = [f'C{i:02d}' for i in range(1, 20)]
